@@ -44,6 +44,7 @@ type CtxToken struct {
 	HasPath  bool   // HTTP method written with its own path
 	Explicit bool   // followed by "("
 	Include  bool   // INCLUDE: not a node of the tree
+	Open     bool   // a "(" on a line of its own that is not the one written right after a directive by Explicit
 }
 
 type CtxVerdict struct {
@@ -66,6 +67,15 @@ func RunContext(tokens []CtxToken) CtxVerdict {
 	var stack []ctxEntry
 	for i, t := range tokens {
 		switch {
+		case t.Open:
+			// A parenthesis belongs to the directive written right before it, if that one has none yet; any other opening
+			// parenthesis (at the beginning, after ")", after INCLUDE, a second one) has nothing to open.
+			prevIsDirective := i > 0 && !tokens[i-1].Close && !tokens[i-1].Include && !tokens[i-1].Open
+			if !prevIsDirective || tokens[i-1].Explicit || len(stack) == 0 {
+				v.ErrAt, v.Class = i, "incorrect-context"
+				return v
+			}
+			stack[len(stack)-1].explicit = true
 		case t.Close:
 			closed := false
 			for len(stack) > 0 {
